@@ -121,11 +121,15 @@ static void* threadMain(void* p) {
     return NULL;
 }
 
-static int futexNodes(wasmMemory* m, int* emptyBuckets) {
+typedef struct { ListLink link; int status; } WaitPrefix;
+static int futexNodes(wasmMemory* m, int* emptyBuckets, int waitingOnly) {
     Map* map; size_t b; int n = 0;
     WASM_MUTEX_LOCK(&m->mutex);
     map = (Map*)m->futex;
-    if (map) for (b = 0; b < map->bucketCount; b++) { MapNode* nd = map->buckets[b]; while (nd) { ListLink* l = (ListLink*)nd->value; while (l) { n++; l = l->next; } nd = (MapNode*)nd->link.next; } }
+    /* white-box: struct Wait in futex.c starts with { ListLink link; WaitStatus status; ... }; a node whose status is already
+       Notified belongs to a waiter that has been woken but not yet scheduled - it is not parked */
+    if (map) for (b = 0; b < map->bucketCount; b++) { MapNode* nd = map->buckets[b]; while (nd) { ListLink* l = (ListLink*)nd->value;
+        while (l) { if (!waitingOnly || ((WaitPrefix*)l)->status == 0) n++; l = l->next; } nd = (MapNode*)nd->link.next; } }
     if (emptyBuckets) { *emptyBuckets = 1; if (map) for (b = 0; b < map->bucketCount; b++) if (map->buckets[b]) *emptyBuckets = 0; }
     WASM_MUTEX_UNLOCK(&m->mutex);
     return n;
@@ -154,7 +158,7 @@ int main(int argc, char** argv) {
         usleep(2000);
         for (t = 0; t < W; t++) if (__atomic_load_n(&inWait[t], __ATOMIC_SEQ_CST)) { parked++; if (waitTimeout[t] >= 0) infinite = 0; }
         (void)notifiersLeft;
-        if (left > 0 && parked == left && infinite && futexNodes(mem, NULL) == parked) { if (parked == lastParked) stable++; else stable = 0; lastParked = parked; }
+        if (left > 0 && parked == left && infinite && futexNodes(mem, NULL, 1) == parked) { if (parked == lastParked) stable++; else stable = 0; lastParked = parked; }
         else { stable = 0; lastParked = -1; }
         if (stable >= 5) {
             /* quiescent: nobody else can act. In the handshake scenario this is a lost wake-up by construction. */
@@ -169,7 +173,7 @@ int main(int argc, char** argv) {
     }
     if (hang) { printf("HANG threadsLeft=%d\n", threadsLeft); fflush(stdout); _exit(3); }
     for (t = 0; t < T; t++) pthread_join(th[t], NULL);
-    { int nodes = futexNodes(mem, &empty); printf("END nodes=%d buckets_empty=%d quiescent_parked=%d\n", nodes, empty, quiescentWithParked); }
+    { int nodes = futexNodes(mem, &empty, 0); printf("END nodes=%d buckets_empty=%d quiescent_parked=%d\n", nodes, empty, quiescentWithParked); }
     for (t = 0; t <= T; t++) { int k; for (k = 0; k < evn[t]; k++) { Ev* e = &evs[t][k]; printf("E %llu %d %d %u %llu %llu\n", e->seq, e->tid, e->kind, e->addr, e->a, e->b); }
         if (evn[t] >= MAXEV) printf("OVERFLOW tid=%d\n", t); }
     printf("DONE W=%d N=%d naddr=%d scenario=%d\n", W, N, naddr, scenario);
